@@ -10,6 +10,7 @@ import (
 	"os"
 	"os/exec"
 	"path/filepath"
+	"runtime"
 	"strings"
 	"sync"
 
@@ -184,6 +185,17 @@ func corrC04(outDir string, seed uint64, tier string, replay string) *report {
 		}
 	}
 	rep.Distribution["purego_keys"] = len(pure)
+	// keys from a GOARCH=386 build (32-bit native word, portable Go): bin/check builds it next to the other binaries
+	var k386 []string
+	if h386 := buildPath("harness_386"); fileExists(h386) && runtime.GOARCH != "386" {
+		out, err := exec.Command(h386, "c04keys", fmt.Sprint(seed), tier).Output()
+		if err == nil {
+			k386 = strings.Fields(string(out))
+		} else {
+			rep.Notes = append(rep.Notes, "386 binary failed: "+err.Error())
+		}
+	}
+	rep.Distribution["goarch386_keys"] = len(k386)
 	openssl := 0
 	var modelReqs, implKeys []string
 	var modelIdx []int
@@ -194,6 +206,10 @@ func corrC04(outDir string, seed uint64, tier string, replay string) *report {
 		argon2crypto.VerifSetSSE4(old)
 		if !bytes.Equal(key, keyNoSSE4) {
 			rep.fail(c.String(), hex.EncodeToString(key), hex.EncodeToString(keyNoSSE4), "key differs between the SSE4.1 and the SSE2 code path")
+		}
+		if i < len(k386) && k386[i] != hex.EncodeToString(key) {
+			rep.fail(map[string]interface{}{"config": c.String(), "password_hex": hx(c.pw), "salt_hex": hx(c.salt)}, hex.EncodeToString(key)+" (amd64 build, equal to the model / x/crypto where compared)", k386[i]+" (GOARCH=386 build)",
+				"key differs between the 64-bit and the 32-bit build of the library")
 		}
 		if i < len(pure) && pure[i] != hex.EncodeToString(key) {
 			rep.fail(c.String(), hex.EncodeToString(key), pure[i], "key differs between the assembly and the portable Go (purego) build")
